@@ -28,11 +28,17 @@ package scramblesuit
 
 // ---- client connection set-up (C10 deadline discipline, C15 ticket handling) ----
 // Assumed contracts (bodies not under contract yet): only frames and the facts callers need.
+// The checkpoint of the ticket store.  json.Marshal of a map is outside the model, so the CONTENT of the
+// file is not decided; what is decided: the body touches nothing but the store file (the in-memory store
+// is only read), every successful return has rewritten that file - however few tickets are left, an
+// empty store included: removing the last ticket must reach the disk too -, and a failure is reported.
 //@ func (*ssTicketStore).serialize(s) (err)
 //@   serves C15
-//@   nobody iterates a map of tickets into JSON; only the frame is stated
 //@   requires s != nil
 //@   modifies file(s.filePath), fexists(s.filePath), crashed
+//@   loop 1 invariant encMap != nil && fresh(encMap) && !crashed == !old(crashed) && unchanged(file(s.filePath), fexists(s.filePath))
+//@   assert_at os.WriteFile#1 [C15:checkpoint_goes_to_the_store_file] arg0 == s.filePath
+//@   ensures [C15:successful_checkpoint_rewrites_the_file] err == nil && !crashed ==> fexists(s.filePath)
 
 // Link crypto of the ScrambleSuit specification: AES-CTR with IV = 8-byte prefix | 64-bit counter starting
 // at 1, HMAC-SHA256 with its own key; all six values are consecutive slices of HKDF-Expand(seed).
